@@ -144,6 +144,11 @@ func payloads() []payload {
 		{"link", `S1E <a href="http://x/l?a=1&amp;b=2">S2E</a>`, 2, "", true, ""},
 		{"escaped-markup", "&lt;b&gt;S1E&lt;/b&gt;", 1, "<b>S1E</b>", false, ""},
 		{"numeric-lt", "S1E &#60;i&#62;S2E", 2, "<i>S2E", false, ""},
+		// character data that LOOKS like a comment (escaped, numeric references, inside CDATA): it is text, all of it
+		{"escaped-comment", "S1E &lt;!-- S2E --&gt; S3E", 3, "<!-- S2E -->", false, ""},
+		{"numeric-comment", "S1E &#60;!-- S2E --&#62; S3E", 3, "<!-- S2E -->", false, ""},
+		{"cdata-comment", "S1E <![CDATA[<!-- S2E -->]]> S3E", 3, "<!-- S2E -->", false, ""},
+		{"escaped-comment-opener-only", "S1E &lt;!-- S2E S3E", 3, "<!-- S2E", false, ""},
 		// escaped markup written INSIDE an inline element (a leaf element, an element next to others, two levels down): the inner
 		// text is character data like any other
 		{"escaped-inside-inline", "<b>&lt;i&gt;S1E&lt;/i&gt;</b> S2E", 2, "<i>S1E</i>", true, ""},
@@ -185,6 +190,9 @@ func runC04(res *Result, tier string, seed int64, replay string) {
 			for _, pl := range payloads() {
 				if s.head && (p.name != "column" || pl.markup) {
 					continue // head slots do not depend on the body placement and hold text only
+				}
+				if pl.name == "cdata-comment" && (s.name == "text" || s.name == "raw" || strings.HasPrefix(s.name, "raw-in-")) {
+					continue // in the raw-HTML slots the content of an author's CDATA section is markup: this one is a real comment
 				}
 				cells = append(cells, cell{s, p, pl})
 			}
